@@ -330,6 +330,9 @@ func (w *c06world) refreshAbsent() {
 	if expired {
 		verif_Reach("expired")
 		verif_Assert(!inList, "a provider no source reports is gone after the first refresh past its time-to-live")
+		gone, gerr := w.pc.Get(context.Background(), pid)
+		verif_Assert(gerr == nil && gone == nil, "and lookups agree with listings: the expired provider is not returned any more")
+		w.knownAbsent[pid] = true // (that lookup asked the sources and remembers the answer)
 		w.visible[pid] = false
 		delete(w.shown, pid)
 		w.hasAbsent[pid] = false
@@ -657,6 +660,35 @@ func VerifC06_CancelledRefreshThenExpiry() {
 			w.tick()
 		}
 		w.refreshAbsent()
+	}
+	verif_Reach("history done")
+}
+
+// C06 / C07: a provider the sources keep reporting with an unchanged record
+// stays visible however much time passes: the time-to-live only runs for
+// providers no source reports any longer ("a provider present both before and
+// after an update is never reported missing").
+func VerifC06_UnchangedProviderStaysVisible() {
+	old := c06pids
+	c06pids = []peer.ID{"P"}
+	defer func() { c06pids = old }()
+	w := c06new()
+	w.seed() // P at time 1, reported by s1
+	rounds := 2 + verif_Tier()
+	for i := 0; i < rounds; i++ {
+		w.tick() // 1..3 clock units; the time-to-live is 2
+		w.srcs[0].content["P"] = c06entry{present: true, ti: 1}
+		if verif_Bool("otherSourceReportsItToo") {
+			w.srcs[1].content["P"] = c06entry{present: true, ti: verif_Choose("otherSourceTime", 0, 1)}
+		} else {
+			w.srcs[1].content["P"] = c06entry{}
+		}
+		w.cx.cancelled = false
+		verif_Assert(w.pc.Refresh(w.cx) == nil, "the refresh completes")
+		before := w.fetches()
+		got, err := w.pc.Get(context.Background(), "P")
+		verif_Assert(err == nil && got != nil && w.fetches() == before && c06timeIdx(got.LastAdvertisementTime) == 1, "a provider reported with an unchanged record in every refresh is never reported missing")
+		verif_Assert(len(w.pc.List()) == 1, "and stays listed")
 	}
 	verif_Reach("history done")
 }
